@@ -718,6 +718,23 @@ class DBUDSServer(UDSServer):
     ) -> dict[int, dict[UDSIsoServices, list[int] | None]]:
         return {}
 
+    async def update_state(
+        self, request: service.UDSRequest, response: service.UDSResponse
+    ) -> None:
+        await super().update_state(request, response)
+
+        # The rows are looked up by the state the recording client logged, so the state has
+        # to be tracked exactly like ECU.update_state() does, including this rule.
+        if (
+            isinstance(response, service.ReadDataByIdentifierResponse)
+            and response.data_identifier == DataIdentifier.ActiveDiagnosticSessionDataIdentifier
+        ):
+            new_session = int.from_bytes(response.data_record, "big")
+
+            if self.state.session != new_session:
+                self.state.reset()
+                self.state.session = new_session
+
     async def respond_after_default(
         self, request: service.UDSRequest
     ) -> service.UDSResponse | None:
